@@ -52,6 +52,17 @@ EXCLUDED[6] = (EXCLUDED[5] + ", no deepcopy / pickle hooks, no `python -O` asser
                "switches above N unknowns), no re-derivation of block offsets from the current list order, no warnings-filter dependence, no "
                "`lstrip(tag)` character-set stripping, no flag resets after optimize, no rounding of Jacobians to fixed decimals, no "
                "scalar-first quaternion order in parameter lines, no lowest-id-as-first-vertex")
+IDEAS[7] = ("this time the choice is yours: read the code the property is anchored in, line by line, and look for the place where a maintainer's "
+            "well-meant edit would be LEAST likely to be noticed -- an expression whose two operands could be swapped, a condition that could be "
+            "inverted for one sub-case only, a default that could move, a loop bound, a slice, an index into a tuple, a helper that is shared by "
+            "two callers with slightly different needs, a docstring formula that differs from the code, a special case someone might 'simplify "
+            "away', an order of operations someone might 'clean up'; also interactions between TWO public features that are each fine alone "
+            "(e.g. custom edge types x file import, fixed flags x export, offsets x copy, plotting x optimisation, equals x reloaded graphs, "
+            "numpy integer ids x dictionaries, several graphs sharing poses); also non-finite or denormal inputs where the property's quantifier "
+            "admits them")
+EXCLUDED[7] = (EXCLUDED[6] + ", no DEBUG-logging side effects, no generators consumed twice, no keyword inserted into a signature, no relative / "
+               "scaled finite-difference steps, no tolerance defaults of np.isclose / np.allclose smuggled into a comparison, no compact-form "
+               "identity tests, no hand-typed constants")
 os.makedirs(pdir, exist_ok=True)
 for p in props:
     pid = p['id']
